@@ -495,7 +495,8 @@ async fn differential_inner(hseed: u64, r: &mut Rng, inst: &ServerInstance, rep:
             }
         }
     }
-    let s1 = Identifier::numeric(streams[0].0).unwrap();
+    // the second stream holds the topics, so that stream id and topic id differ (a swapped pair of ids must not go unnoticed)
+    let s1 = Identifier::numeric(streams[1].0).unwrap();
     // topics with boundary settings
     let mut topics = vec![];
     for k in 0..4u32 {
@@ -649,9 +650,9 @@ async fn differential_inner(hseed: u64, r: &mut Rng, inst: &ServerInstance, rep:
     {
         use iggy::http::HttpTransport;
         let long = "n".repeat(256);
-        let t1s = format!("/streams/{}/topics", streams[0].0);
-        let t1m = format!("/streams/{}/topics/{}/messages", streams[0].0, tid);
-        let t1o = format!("/streams/{}/topics/{}/consumer-offsets", streams[0].0, tid);
+        let t1s = format!("/streams/{}/topics", streams[1].0);
+        let t1m = format!("/streams/{}/topics/{}/messages", streams[1].0, tid);
+        let t1o = format!("/streams/{}/topics/{}/consumer-offsets", streams[1].0, tid);
         let cases: Vec<(&str, String, Value)> = vec![
             ("post", "/streams".into(), json!({"name": 5})),
             ("post", "/streams".into(), json!({})),
